@@ -101,6 +101,11 @@ static hash_t *_parse_digest_challenge(xmpp_ctx_t *ctx, const char *msg)
     char *key, *value;
     unsigned char *s, *t;
 
+    if (msg == NULL) {
+        strophe_error(ctx, "SASL", "empty challenge");
+        return NULL;
+    }
+
     text = (unsigned char *)xmpp_base64_decode_str(ctx, msg, strlen(msg));
     if (text == NULL) {
         strophe_error(ctx, "SASL", "couldn't Base64 decode challenge!");
